@@ -221,6 +221,22 @@ CHECKS = {
             "under adversarial per-item delays and early drop.",
             "Rust thread schedules are perturbed (size skew, sleeps), not "
             "owned.", "5 C15"),
+    "C06": ("fault_enumeration",
+            "crash-point enumeration: every system-call boundary and "
+            "generated partial write of an observed session is snapshotted "
+            "and judged by an old-or-new / complete-shards / bounded-"
+            "multiset oracle; slow-reader state pairs",
+            "Histories are generated (Hypothesis); within a history every "
+            "boundary (create, each os.write incl. partial prefixes, close, "
+            "replace, mkdir, TFRecordWriter calls) is a crash point. Every "
+            "distinct state must have complete old-or-new metadata files, "
+            "open, list only complete shards matching reference digests, "
+            "and iterate to committed <= result <= committed + started with "
+            "intact examples; also for description-from-i / lists-from-j "
+            "readers.",
+            "OS stays up (no reordering); TF C++ writer observed per Python "
+            "method; in-process multi-writer (real processes are C09).",
+            "5 C06"),
 }
 
 NOT_YET = {}
